@@ -285,8 +285,15 @@ func forType(t reflect.Type, seen map[reflect.Type]bool, ignore bool, schemas ma
 			// encoding/json treats an embedded field whose json tag gives it a name
 			// as an ordinary field of that name, and omits one tagged "-" together
 			// with the fields it would promote.
+			// It does the same with an embedded field that is not a struct
+			// (or pointer to struct): such a field is named after its type.
 			tagName, _, _ := strings.Cut(field.Tag.Get("json"), ",")
-			embeddedAsField := field.Anonymous && isValidTag(tagName) && field.Tag.Get("json") != "-"
+			embeddedType := field.Type
+			if embeddedType.Kind() == reflect.Pointer {
+				embeddedType = embeddedType.Elem()
+			}
+			embeddedAsField := field.Anonymous && field.Tag.Get("json") != "-" &&
+				(isValidTag(tagName) || embeddedType.Kind() != reflect.Struct)
 			if field.Anonymous && field.Tag.Get("json") == "-" {
 				skipPath = field.Index
 				continue
